@@ -97,7 +97,7 @@ Qed.
 
 Lemma dnote_readfail d u a dat t asked b : d_r d = Some (t, asked, b) -> a <> 0 ->
   dnote true did d (OReadFail u did a dat) =
-  (mkD None (d_rbase d) (d_w d) (d_wbase d), [DReadFail t asked b (a - d_rbase d)]).
+  (mkD None (d_rbase d) (d_w d) (d_wbase d), if has_fcb t then [DReadFail t asked b (a - d_rbase d)] else []).
 Proof.
   intros H N. cbn [dnote]. rewrite Z.eqb_refl. cbn [negb]. destruct (a =? 0) eqn:E; [lia|]. rewrite H. reflexivity.
 Qed.
@@ -109,7 +109,7 @@ Proof. intros H. cbn [dnote]. rewrite Z.eqb_refl. cbn [negb]. rewrite H. reflexi
 
 Lemma dnote_writefail d u a t asked b : d_w d = Some (t, asked, b) ->
   dnote true did d (OWriteFail u did a) =
-  (mkD (d_r d) (d_rbase d) None (d_wbase d), [DWriteFail t asked b (a - d_wbase d)]).
+  (mkD (d_r d) (d_rbase d) None (d_wbase d), if has_fcb t then [DWriteFail t asked b (a - d_wbase d)] else []).
 Proof. intros H. cbn [dnote]. rewrite Z.eqb_refl. cbn [negb]. rewrite H. reflexivity. Qed.
 
 (* ================================================================ what the client holds for memory did *)
@@ -287,10 +287,11 @@ Proof.
       constructor; [exact I|]. constructor; [|constructor]. cbn [good]. split; [lia|].
       exists u. left. rewrite Ea. reflexivity.
     + exists (mkD None (d_rbase d) (d_w d) (d_wbase d)),
-             [inl (OReadFail u did a dat); inr (DReadFail tk asked b (a - d_rbase d))].
-      cbn [dnotes]. rewrite (dnote_readfail d u a dat tk asked b Dr) by lia. cbn [map app].
+             (inl (OReadFail u did a dat) :: map inr (if has_fcb tk then [DReadFail tk asked b (a - d_rbase d)] else [])).
+      cbn [dnotes]. rewrite (dnote_readfail d u a dat tk asked b Dr) by lia. rewrite app_nil_r.
       split; [reflexivity|]. split; [rewrite Er'; exact I|]. split; [rewrite Ew; exact HW|].
-      constructor; [exact I|]. constructor; [|constructor]. cbn [good]. lia.
+      constructor; [exact I|]. destruct (has_fcb tk); cbn [map]; [|constructor].
+      constructor; [|constructor]. cbn [good]. lia.
   - unfold AW in HW. rewrite Ew in HW.
     destruct t as [|a2 t2]; [|destruct (d_w d); destruct HW].
     destruct (d_w d) as [[[tk asked] b]|] eqn:Dw; [|destruct HW].
@@ -304,10 +305,11 @@ Proof.
       constructor; [|constructor]. cbn [good]. split; [lia|].
       exists u. apply in_or_app. right. left. rewrite Ea. reflexivity.
     + exists (mkD (d_r d) (d_rbase d) None (d_wbase d)),
-             (map inl os1 ++ inl (OWriteFail u did a) :: map inr [DWriteFail tk asked b (a - d_wbase d)] ++ map inl []).
+             (map inl os1 ++ inl (OWriteFail u did a) ::
+              map inr (if has_fcb tk then [DWriteFail tk asked b (a - d_wbase d)] else []) ++ map inl []).
       rewrite (dnotes_mid d os1 (OWriteFail u did a) [] _ _ Q (Forall_nil _) (dnote_writefail d u a tk asked b Dw)).
       split; [reflexivity|]. split; [rewrite Er; exact HR|]. split; [rewrite Ew'; exact I|].
-      apply Forall_app. split; [apply good_inl|]. constructor; [exact I|]. cbn [map app].
+      apply Forall_app. split; [apply good_inl|]. constructor; [exact I|]. destruct (has_fcb tk); cbn [map app]; [|constructor].
       constructor; [|constructor]. cbn [good]. lia.
 Qed.
 
@@ -353,7 +355,8 @@ Proof.
     eexists. eexists. split.
     + eapply dnotes_mid; [exact Q1|exact Q2|]. apply (dnote_readfail d _ _ _ tk asked b Dr). lia.
     + split; [reflexivity|]. split; [reflexivity|].
-      apply Forall_app. split; [apply fgood_inl|]. constructor; [exact I|]. cbn [map app].
+      apply Forall_app. split; [apply fgood_inl|]. constructor; [exact I|].
+      destruct (has_fcb tk); cbn [map app]; [|apply fgood_inl].
       constructor; [cbn [fgood]; lia|apply fgood_inl].
   - exists d, (map inl (map fail_read rs)). split.
     + apply dnotes_quiet. apply quiet_fail_reads. exact (rd_get_none _ _ G).
@@ -379,7 +382,8 @@ Proof.
     eexists. eexists. split.
     + eapply dnotes_mid; [exact (quiet_fail_writes _ H1)|exact (quiet_fail_writes _ H2)|].
       apply (dnote_writefail d _ _ tk asked b Dw).
-    + apply Forall_app. split; [apply fgood_inl|]. constructor; [exact I|]. cbn [map app].
+    + apply Forall_app. split; [apply fgood_inl|]. constructor; [exact I|].
+      destruct (has_fcb tk); cbn [map app]; [|apply fgood_inl].
       constructor; [cbn [fgood]; lia|apply fgood_inl].
   - destruct (d_w d); destruct HW.
 Qed.
